@@ -1085,7 +1085,7 @@ def c04(req, ra, ctr):
 # ----------------------------------------------------------------------------- runtime-only requests
 def rt_problems(req, ra):
     if req[0].startswith('rt:') and ra[0] == 'ok' and ra[1]:
-        return ['%s: %s' % (req[0][3:], p) for p in ra[1]]
+        return list(ra[1])
     return []
 
 
@@ -1169,7 +1169,6 @@ def c18(req, ra, ctr):
 
 def c17(req, ra, ctr):
     fails = rt_problems(req, ra)
-    fails = [f.split(': ', 1)[1] if f.split(':')[0] in ('asforged_threads', 'stress', 'window') else f for f in fails]
     if req[0] == 'sched':
         _, n, iw, schedule, events = req
         ctr['c17:schedules'] += 1
@@ -1185,3 +1184,16 @@ def c17(req, ra, ctr):
             fails.append('cleanup-window: under some interleaving the body of one thread runs while another thread has put '
                          '__wrapped__ back (it then follows the wrapped function): shared accesses %s' % (events,))
     return fails
+
+
+def c05(req, ra, ctr):
+    fails = rt_problems(req, ra)
+    if req[0].startswith('rt:') and ra[0] == 'ok' and len(ra) > 2 and isinstance(ra[2], str):
+        ctr['c05:' + ra[2].split(':')[0]] += 1
+    return fails
+
+
+c06 = c05
+
+
+c07 = c05
